@@ -89,9 +89,10 @@ class PolynomialKernel(Kernel):
         if last_dim_is_batch:
             x1 = x1.transpose(-1, -2).unsqueeze(-1)
             x2 = x2.transpose(-1, -2).unsqueeze(-1)
+            offset = offset.unsqueeze(-3)  # batch_shape x 1 x 1 x 1: a unit axis for the dimension that became a batch
 
         if diag:
-            return ((x1 * x2).sum(dim=-1) + self.offset).pow(self.power)
+            return ((x1 * x2).sum(dim=-1) + offset.squeeze(-1)).pow(self.power)
 
         if (x1.dim() == 2 and x2.dim() == 2) and offset.dim() == 2:
             return torch.addmm(offset, x1, x2.transpose(-2, -1)).pow(self.power)
